@@ -3,6 +3,7 @@
 use std::io::{BufRead, Write};
 
 mod ops_chacha;
+mod ops_null;
 mod util;
 
 pub struct Ctx {
@@ -51,6 +52,7 @@ fn step(ctx: &mut Ctx, toks: &[&str]) -> String {
             }
         }
         ["chacha", ..] | ["guts", ..] => ops_chacha::step(&mut ctx.chacha, toks),
+        ["null", ..] => ops_null::step(toks),
         _ => "bad-op".into(),
     }
 }
